@@ -48,6 +48,7 @@ type hooks struct {
 	beforeBuild func(n int)                // before the builder builds block n
 	onBuilt     func(n int, ref *blockRef) // after block n was built and enumerated
 	atEnd       func()
+	crowd       bool // C06: some blocks are scriptCrowd blocks
 }
 
 func commitments(h *types.Header) string {
@@ -129,6 +130,9 @@ func (s *sim) runHistory(h hooks) {
 			case 2:
 				scripted = s.scriptAddThenClose()
 			}
+		}
+		if !scripted && h.crowd && n > 1 && s.c.Chance("crowd-script", 1, 10) {
+			scripted = s.scriptCrowd()
 		}
 		if !scripted {
 			ntx := []int{0, 1, 2, 3, 4, 6}[s.c.Weighted("ntx", []int{1, 3, 3, 2, 2, 1})]
